@@ -6,7 +6,8 @@
    may die after any step, so the crash states are [run step sched init] for ALL schedules. *)
 From Coq Require Import List NArith Arith Bool.
 From DS Require Import Gen.Constants Base.Bytes Base.Hash Base.HexId Base.FS Base.Sched
-     Model.LocalStore Model.Prune Model.StoreCrash Proofs.LocalStoreProofs Proofs.PruneProofs Proofs.StoreCrashProofs.
+     Model.LocalStore Model.Prune Model.StoreCrash Model.InPlace
+     Proofs.LocalStoreProofs Proofs.PruneProofs Proofs.StoreCrashProofs Proofs.InPlaceProofs.
 Import ListNotations.
 
 (* store_crash_atomic, path by path: in every crash state every path is as before, or a directory
@@ -70,6 +71,27 @@ Theorem C08_extract_crash_untouched :
 Proof. exact extract_crash. Qed.
 Print Assumptions C08_extract_crash_untouched.
 
+(* inplace_rerun (writeChunk on an existing file, self-seed shortcut left out; the workers' jobs in any
+   order, with repeats): starting from ANY file of the indexed length -- e.g. what a killed in-place
+   extract left -- the re-run ends with every processed range hashing to its id, leaves unprocessed ranges
+   alone, and asks the store only for chunks whose range in the starting file did NOT already hash to
+   their id.  (The index rows are disjoint and inside the file; the store verifies what it returns.) *)
+Theorem C08_inplace_rerun :
+  forall (H : bytes -> id) (fetch : id -> option bytes) (idx : list row) (f0 : bytes),
+  (forall a b, In a idx -> In b idx -> a <> b ->
+     r_start a + r_size a <= r_start b \/ r_start b + r_size b <= r_start a) ->
+  (forall a, In a idx -> r_start a + r_size a <= length f0) ->
+  (forall i d, fetch i = Some d -> H d = i) ->
+  forall jobs f' q,
+  Forall (fun r => In r idx) jobs ->
+  assemble_inplace H fetch jobs f0 = Some (f', q) ->
+  length f' = length f0 /\
+  (forall r, In r jobs -> H (slice f' (r_start r) (r_size r)) = r_id r) /\
+  (forall a, In a idx -> ~ In a jobs -> slice f' (r_start a) (r_size a) = slice f0 (r_start a) (r_size a)) /\
+  (forall i, In i q -> exists r, In r jobs /\ r_id r = i /\ H (slice f0 (r_start r) (r_size r)) <> i).
+Proof. exact inplace_rerun. Qed.
+Print Assumptions C08_inplace_rerun.
+
 (* ---------- non-vacuity ---------- *)
 Definition ex_base : path := [[115]%N].
 Definition ex_wd (i : nat) : wdata :=
@@ -120,3 +142,25 @@ Example C08_example_extract :
   run (xstep [] [111]%N [[1]; [1; 2]; [1; 2; 3]]%N) [XNext; XNext; XNext; XNext; XNext; XNext; XNext] (d0, XCreate [[46; 53]%N])
     = (Dir meta0 [([111]%N, File meta0 [1; 2; 3]%N)], XDone true).
 Proof. vm_compute. split; reflexivity. Qed.
+
+(* Base/FS.v's operation-list view of the same thing: every crash state of StoreChunk's op list
+   (incl. every prefix of the write) has the final name absent or complete *)
+Example C08_example_op_list_crash_states :
+  let ops := store_ops (mkStore ex_base false false) 6%N [46; 49]%N [40; 181; 1; 2; 3]%N in
+  let cs := crash_states ops ex_s0 in
+  length cs = 12 /\
+  forallb (fun s => match stat ex_final s with
+                    | None => true
+                    | Some (EFile _ b) => bytes_eqb b [40; 181; 1; 2; 3]%N
+                    | _ => false
+                    end) cs = true /\
+  existsb (fun s => match stat ex_final s with Some _ => true | None => false end) cs = true.
+Proof. vm_compute. repeat split; reflexivity. Qed.
+
+(* in-place re-run: blob 1 2 3 4 5 6 in rows of 2 (H = sum); the crash left the middle row wrong: only it is fetched *)
+Example C08_example_inplace :
+  let H := fun b : bytes => fold_right N.add 0%N b in
+  let fetch := fun i : id => match i with 7 => Some [3; 4] | 3 => Some [1; 2] | 11 => Some [5; 6] | _ => None end%N in
+  let idx := [mkRow 3 0 2; mkRow 7 2 2; mkRow 11 4 2]%N in
+  assemble_inplace H fetch (rev idx) [1; 2; 0; 0; 5; 6]%N = Some ([1; 2; 3; 4; 5; 6]%N, [7%N]).
+Proof. vm_compute. reflexivity. Qed.
